@@ -6,6 +6,7 @@ import (
 	"fmt"
 	"net"
 	"strings"
+	"sync"
 
 	"github.com/pion/stun/v3"
 )
@@ -15,6 +16,7 @@ import (
 // encoders, authenticates reactively (401 -> resend with credentials, 438 -> new nonce)
 // and records everything it receives.
 type RawClient struct {
+	mu    sync.Mutex // free-running mode: ops and deliveries come from different timer goroutines
 	W     *SrvWorld
 	Spec  ClientSpec
 	Addr  *net.UDPAddr
@@ -321,7 +323,9 @@ func MakePayload(seed uint64, actor string, op *Op) []byte {
 }
 
 func (c *RawClient) sendWire(b []byte, it *Intent) {
-	c.W.Mon.RegisterIntent(ustr(c.Addr), b, it)
+	if !c.W.K.Free {
+		c.W.Mon.RegisterIntent(ustr(c.Addr), b, it)
+	}
 	if c.W.P.Cfg.Listener == "tcp" {
 		if !c.connUp {
 			c.queue = append(c.queue, b)
@@ -337,6 +341,8 @@ func (c *RawClient) sendWire(b []byte, it *Intent) {
 
 // Do executes one plan op of this client (driver context).
 func (c *RawClient) Do(op *Op) {
+	c.mu.Lock()
+	defer c.mu.Unlock()
 	switch op.Kind {
 	case "binding", "allocate", "refresh", "createperm", "chanbind", "connect":
 		mode := op.A.Cred
@@ -383,8 +389,11 @@ func (c *RawClient) Do(op *Op) {
 		c.sendWire(b, &Intent{Client: c.Spec.ID, OpID: op.ID, Kind: "raw"})
 	case "replay":
 		// re-send another client's captured authentic message from this client's address
-		if src := c.W.Clients[op.A.Target]; src != nil {
-			if b, ok := src.sent[op.A.N]; ok {
+		if src := c.W.Clients[op.A.Target]; src != nil && src != c {
+			src.mu.Lock()
+			b, ok := src.sent[op.A.N]
+			src.mu.Unlock()
+			if ok {
 				c.sendWire(b, &Intent{Client: c.Spec.ID, OpID: op.ID, Kind: "replay", Cred: "replayed"})
 			}
 		}
@@ -410,6 +419,12 @@ func (c *RawClient) Do(op *Op) {
 }
 
 func (c *RawClient) onWire(b []byte) {
+	c.mu.Lock()
+	defer c.mu.Unlock()
+	c.onWireLocked(b)
+}
+
+func (c *RawClient) onWireLocked(b []byte) {
 	now := c.W.K.Now()
 	if msg, ok := decodeSTUN(b); ok {
 		switch msg.Type.Class {
@@ -494,6 +509,8 @@ func (c *RawClient) onResponse(msg *stun.Message) {
 
 // stream input (TCP control connection)
 func (c *RawClient) onStream(b []byte) {
+	c.mu.Lock()
+	defer c.mu.Unlock()
 	c.inbuf = append(c.inbuf, b...)
 	for {
 		n, ok := refFrameLen(c.inbuf)
@@ -502,6 +519,6 @@ func (c *RawClient) onStream(b []byte) {
 		}
 		f := c.inbuf[:n]
 		c.inbuf = c.inbuf[n:]
-		c.onWire(f)
+		c.onWireLocked(f)
 	}
 }
